@@ -10,7 +10,8 @@
 (* is printed with the expected result of each call under each verdict script.    *)
 EXTENDS PathHeader, Json
 
-CONSTANTS MAXLEN, ALLCH, Depth, GEN
+CONSTANTS MAXLEN, ALLCH, Depth, GEN,
+          ALS      \* router-alert patterns explored: subset of BOOLEAN (all alert flags set / unset)
 
 SymXor(acc, m) == (acc \ {m}) \cup ({m} \ acc)
 
@@ -32,7 +33,7 @@ CellsOf(sl) ==
   {[sl |-> sl, ci |-> ci, ch |-> ch,
     inf |-> [j \in 1..NInf(sl) |-> MkInf(j, cdv[j])],
     hop |-> [k \in 1..Total(sl) |-> MkHop(k, al)]] :
-     ci \in 0..3, ch \in ChOf(sl), cdv \in [1..NInf(sl) -> BOOLEAN], al \in BOOLEAN}
+     ci \in 0..3, ch \in ChOf(sl), cdv \in [1..NInf(sl) -> BOOLEAN], al \in ALS}
 Cells == UNION {CellsOf(sl) : sl \in Shapes}
 
 Ops == {"ing_int", "ing_ext", "egr"}
